@@ -779,9 +779,18 @@ func (p *partialCall) CallFromStack(context *Context, n int, scratch []reflect.V
 	if n+p.n == p.c.NumArgs() {
 		vm.Stack = vm.Stack[0 : len(vm.Stack)-1]
 		vm.Stack = append(vm.Stack, p.args[0:p.n]...)
+		// The frame describing this call normally holds the expression that
+		// created the partial call, but a function value that reached us
+		// through a lambda argument or a native function carries whatever
+		// expression described it there.
 		call := b6.CallExpression{
-			Function: expression.AnyExpression.(b6.CallExpression).Function,
+			Function: p.e,
 			Args:     make([]b6.Expression, p.c.NumArgs()),
+		}
+		if c, ok := expression.AnyExpression.(b6.CallExpression); ok {
+			call.Function = c.Function
+		} else if c, ok := p.e.AnyExpression.(b6.CallExpression); ok {
+			call.Function = c.Function
 		}
 		for i := 0; i < p.c.NumArgs(); i++ {
 			call.Args[i] = vm.Stack[len(vm.Stack)-p.c.NumArgs()+i].Expression
